@@ -266,6 +266,31 @@ def key_pair(c):
     return ''
 
 
+# ---------------------------------------------------------------- the process time zone does not matter
+
+TZ_FORMULAS = ['DATE(2019,11,20)+1', '1+DATE(2019,7,1)', 'DATE(2019,7,1)-0.5', 'DATE(2019,3,10)+1.1', 'DATE(2019,7,1)*1', '200000000/DATE(2019,11,20)', 'DATE(2019,7,1)-DATE(2019,1,1)', '"2019-07-01"+1', '"2019-03-31 02:30:00"+0',
+               '{1,2}+DATE(2019,11,3)', 'DATE(2019,11,3)+{0.5;1.5}', 'DATE(2019,7,1)&""', '(DATE(2019,7,1)+1)&""', 'DATE(1900,3,1)+0.25', 'v_d+43647', 'DATE(2019,7,1)/1', '5-DATE(2019,7,1)']
+
+
+def enum_tz(tier, shard, nshards):
+    zones = ['America/New_York', 'Europe/Berlin', 'Australia/Lord_Howe', 'Asia/Kolkata', 'America/Sao_Paulo']
+    for i, z in enumerate(zones[:3] if tier == 'quick' else zones):
+        if i % nshards == shard:
+            yield z
+
+
+def check_tz(zone):
+    import os
+    from ..freshproc import run_fresh
+    if not os.path.exists('/usr/share/zoneinfo/' + zone):
+        raise Skip('zone-data-missing')
+    base = run_fresh(TZ_FORMULAS, env_extra={'TZ': 'UTC'})
+    other = run_fresh(TZ_FORMULAS, env_extra={'TZ': zone})
+    for f, a, b in zip(TZ_FORMULAS, base, other):
+        if a != b:
+            raise Violation('in a process whose time zone is %s, %s gives %s; under UTC it gives %s (a date-valued result is the date with that serial, whatever the zone of the process)' % (zone, f, b, a), b, a)
+
+
 def nontrivial(c):
     a, b = c['a'], c['b']
     if a[0] != b[0]:
@@ -282,6 +307,8 @@ LAWS = [
         rule='ordered operand pairs, classes drawn uniformly (11 classes x 11 classes x 4 operators), given as variables, cells or literals: result kind and value from the reference '
              '(numeric values, date-returning cells of the table, #VALUE! for text, #DIV/0!, #NUM! for negative date results), arrays element-wise with #VALUE! on a length mismatch; '
              'non-trivial = operands of different classes, or non-integer / negative / time-carrying / array operands'),
+    Law('timezone_independence', check_tz, enumerate=enum_tz, shards=(3, 5), guard=400,
+        rule='17 formulas whose operands or results are dates are evaluated in a brand-new interpreter under TZ=UTC and under zones with daylight saving or a fractional offset: every outcome is the same'),
     Law('commutativity', check_commute, strategy=pair_case, classes=lambda c: ('array' if key_pair(c) else 'scalar',), required=('array', 'scalar'), key=key_pair,
         quick=3000, thorough=100000, shards=(4, 16), nontrivial=nontrivial,
         rule='a+b vs b+a and a*b vs b*a give the same outcome (result, element-wise, or error) for every pair incl. arrays'),
